@@ -27,6 +27,7 @@ EVIDENCE = VERIF / "evidence"
 REPLAYS = VERIF / "replays"
 GUARD = "NREL_JADE_VERIF"
 NCPU = min(16, os.cpu_count() or 4)
+MEM_LIMIT_KB = 14 * 1024 * 1024   # per coqc process
 
 FORBIDDEN = re.compile(
     r"\b(Admitted|admit|Axiom|Axioms|Parameter|Parameters|Conjecture|Conjectures|Admit Obligations)\b"
@@ -114,25 +115,32 @@ def _locate_error(log):
 
 def build(targets=None, timeout=1500):
     """make the given .vo targets (paths relative to coq/, e.g. theories/Props/C18.vo) or all."""
+    # The lock only protects the regeneration of _CoqProject/Makefile; builds of different
+    # targets run concurrently (each check builds its own Props/Cxx.vo and what it depends on).
+    # Every coqc runs under a time limit and an address-space limit so that a runaway proof search
+    # cannot starve the other checks.
     with _BuildLock():
         _refresh_makefile()
-        cmd = ["timeout", str(timeout), "make", f"-j{NCPU}"] + list(targets or [])
-        t0 = time.time()
-        p = subprocess.run(cmd, cwd=COQ, capture_output=True, text=True)
-        log = p.stdout + p.stderr
+    cmd = ["timeout", str(timeout), "make", f"-j{NCPU}"] + list(targets or [])
+    t0 = time.time()
+    p = subprocess.run(["bash", "-c", f"ulimit -v {MEM_LIMIT_KB}; exec " + " ".join(cmd)], cwd=COQ,
+                       capture_output=True, text=True)
+    log = p.stdout + p.stderr
+    try:
         (WORK / "last_make.log").write_text(log)
-        if p.returncode != 0:
-            file, line, thm = _locate_error(log)
-            raise BuildError(f"coq build failed (rc={p.returncode}) in {file}:{line} ({thm})", log[-6000:], file, line, thm)
-        return {"cmd": " ".join(cmd), "wall_s": round(time.time() - t0, 2)}
+    except OSError:
+        pass
+    if p.returncode != 0:
+        file, line, thm = _locate_error(log)
+        raise BuildError(f"coq build failed (rc={p.returncode}) in {file}:{line} ({thm})", log[-6000:], file, line, thm)
+    return {"cmd": " ".join(cmd), "wall_s": round(time.time() - t0, 2)}
 
 
 def coqc_file(vfile, timeout=600):
     """Compile one .v (relative to coq/) directly and return its stdout (Print Assumptions ...)."""
-    with _BuildLock():
-        p = subprocess.run(["timeout", str(timeout), "coqc", "-Q", "theories", "Jade", "-w",
-                            "-notation-overridden,-deprecated", vfile],
-                           cwd=COQ, capture_output=True, text=True)
+    p = subprocess.run(["bash", "-c", f"ulimit -v {MEM_LIMIT_KB}; exec timeout {timeout} coqc -Q theories Jade -w "
+                        f"-notation-overridden,-deprecated {vfile}"],
+                       cwd=COQ, capture_output=True, text=True)
     if p.returncode != 0:
         log = p.stdout + p.stderr
         file, line, thm = _locate_error(log)
